@@ -309,13 +309,31 @@ def abacoGeom (pkts : List Group) : List (Nat × Nat × Nat × Nat) :=
 
 /-! ### Simulated sources (default `AnySource.PrepareChannels`) and ROACH -/
 
+/-- `Sample` of a simulated source holding `n` channels, then `AnySource.PrepareChannels` -/
+def genericTables (n : Nat) : Tables :=
+  { nchan := n,
+    streams := (List.range n).map (fun (i : Nat) => mkStream false (i : Int) 0 i 1 n),
+    groups := [{ first := 0, n := n }] }
+
 /-- `Configure` (rejects `nchan < 1`), `Sample`, `AnySource.PrepareChannels` -/
 def genericPrepare (nchan : Int) : Option Tables :=
-  if nchan < 1 then none else
-  let n := nchan.toNat
-  some { nchan := n,
-         streams := (List.range n).map (fun (i : Nat) => mkStream false (i : Int) 0 i 1 n),
-         groups := [{ first := 0, n := n }] }
+  if nchan < 1 then none else some (genericTables nchan.toNat)
+
+/-! #### One simulated source object across requests
+
+`Configure` refuses `Nchan < 1` at once; otherwise it stores the channel count and only then may refuse the
+request because one buffer would last more than 4 s (`late`).  A later `Start` runs `Sample` (which builds
+names, numbers and row/column codes for the stored count) and `PrepareChannels`. -/
+
+/-- the channel count the object holds (0 = Go zero value, never configured) -/
+abbrev GObj := Nat
+
+/-- a `Configure` request: new state and whether it was accepted -/
+def genericConfigure (g : GObj) (nchan : Int) (late : Bool) : GObj × Bool :=
+  if nchan < 1 then (g, false) else (nchan.toNat, !late)
+
+/-- the table-building part of `Start` -/
+def genericStart (g : GObj) : Tables := genericTables g
 
 def genericGeom (n : Nat) : List (Nat × Nat × Nat × Nat) := (List.range n).map fun i => (0, i, 1, n)
 
@@ -483,6 +501,7 @@ def pGroup : P Group := do
 
 inductive RRes where
   | rejected
+  | configOk
   | panic
   | tables (o : ROut)
 deriving Repr
@@ -492,6 +511,7 @@ def pRes : P RRes := do
   let t ← tok
   match t with
   | "E" => pure .rejected
+  | "K" => pure .configOk
   | "PANIC" => pure .panic
   | "T" => do
     let nchan ← int
@@ -540,6 +560,7 @@ def pDev : P Dev := do
 def judge (inp : Input) (mres : Option Tables) (res : RRes) (what : String) : Except Verdict (Option Tables) :=
   match res with
   | .panic => .error (.viol s!"C19:panic the real code panicked ({what})")
+  | .configOk => .error (.bad s!"{what}: a Configure answer where tables are expected")
   | .rejected =>
     match mres with
     | none => .ok none
@@ -606,6 +627,8 @@ def lanceroTags (c : LCfg) (t1 t2 : Option Tables) : List String :=
 inductive HStep where
   | l (s : LStep)
   | other (inp : Input)
+  | gconf (nchan : Int) (late : Bool)     -- a Configure request to a simulated source
+  | gstart                                 -- Sample + PrepareChannels of a simulated source
 deriving Repr
 
 open P in
@@ -623,21 +646,33 @@ def pHStep : P HStep := do
   | "A" => do let prods ← list (list pGroup); pure (.other (.abaco prods.flatten))
   | "S" => do let _kind ← nat; let n ← int; pure (.other (.generic n))
   | "R" => do let n ← nat; pure (.other (.roach n))
+  | "C" => do let _kind ← nat; let n ← int; let late ← bool; pure (.gconf n late)
+  | "P" => pure .gstart
   | _ => fail s!"bad step {k}"
 
 /-- run a history through the model and judge the implementation's result after EVERY step;
 returns the inputs and accepted tables per step -/
-def judgeHistory : LObj → Nat → List HStep → List RRes → Except Verdict (List (Input × Option Tables))
-  | _, _, [], _ => .ok []
-  | _, _, _ :: _, [] => .error (.bad "fewer results than steps")
-  | o, k, st :: sts, r :: rs =>
-    let (o', inp, m) : LObj × Input × Option Tables := match st with
-      | .l ls => ((lanceroObjStep o ls).1, .lancero (lanceroStepCfg o ls), (lanceroObjStep o ls).2)
-      | .other i => (o, i, i.model)
+def judgeHistory : LObj → GObj → Nat → List HStep → List RRes → Except Verdict (List (Input × Option Tables))
+  | _, _, _, [], _ => .ok []
+  | _, _, _, _ :: _, [] => .error (.bad "fewer results than steps")
+  | o, g, k, .gconf n late :: sts, r :: rs =>
+    let (g', ok) := genericConfigure g n late
+    match r with
+    | .panic => .error (.viol s!"C19:panic the real code panicked (Configure, step {k + 1})")
+    | .tables _ => .error (.bad "tables where a Configure answer is expected")
+    | .rejected => if ok then .error (.diff s!"step {k + 1}: Configure refused, model accepts") else judgeHistory o g' (k + 1) sts rs
+    | .configOk => if ok then judgeHistory o g' (k + 1) sts rs else .error (.diff s!"step {k + 1}: Configure accepted, model refuses")
+  | o, g, k, st :: sts, r :: rs =>
+    let (o', g', inp, m) : LObj × GObj × Input × Option Tables := match st with
+      | .l ls => ((lanceroObjStep o ls).1, g, .lancero (lanceroStepCfg o ls), (lanceroObjStep o ls).2)
+      | .other (.generic n) => (o, (genericConfigure g n false).1, .generic n, genericPrepare n)
+      | .other i => (o, g, i, i.model)
+      | .gconf _ _ => (o, g, .generic g, none)   -- not reached
+      | .gstart => (o, g, .generic g, some (genericStart g))
     match judge inp m r s!"step {k + 1}" with
     | .error v => .error v
     | .ok t =>
-      match judgeHistory o' (k + 1) sts rs with
+      match judgeHistory o' g' (k + 1) sts rs with
       | .error v => .error v
       | .ok rest => .ok ((inp, t) :: rest)
 
@@ -687,7 +722,7 @@ def runLine (ts : List String) : Verdict :=
     match ress with
     | [.panic] => .viol "C19:panic the real code panicked (prepare)"
     | _ =>
-    match judgeHistory LObj.fresh 0 steps ress with
+    match judgeHistory LObj.fresh 0 0 steps ress with
     | .error v => v
     | .ok js =>
       match judgeFiles ((js.getLast?.map (·.2)).join) files with
@@ -701,6 +736,8 @@ def runLine (ts : List String) : Verdict :=
           | _ => []
         let later := if hist then (js.drop 1).flatMap (fun (inp, t) => (kindTags inp t).filter
             (fun s => s == "would-collide" || s == "multi" || s == "cards-unordered")) else []
-        .ok ((first ++ retry ++ later ++ (if hist then ["history"] ++ historyTags js else []) ++ ft).eraseDups)
+        let conf := (if steps.any (fun s => match s with | .gconf n true => decide (n ≥ 1) | _ => false) then ["late-refused"] else []) ++
+          (if steps.any (fun s => match s with | .gstart => true | _ => false) then ["start-after-configure"] else [])
+        .ok ((first ++ retry ++ later ++ conf ++ (if hist then ["history"] ++ historyTags js else []) ++ ft).eraseDups)
 
 end DastardV.C19
